@@ -123,18 +123,28 @@ PROPS = {
  },
  "C08": {
   "modules": ["OsmoVerif.Props.C08"],
-  "min_theorems": 5,
+  "min_theorems": 30,
   "fingerprints": ["CL.Keeper_*", "CL.SwapState_*"],
   "engines": [{"name": "clmath", "kind": "pure", "n": {"quick": 30000, "thorough": 400000}, "shards": {"quick": 2, "thorough": 16}},
               {"name": "cl", "kind": "app", "n": {"quick": 1500, "thorough": 20000}, "shards": {"quick": 4, "thorough": 16}}],
-  "rule": "cl: histories on one concentrated pool through the real keeper (create incl. twin and k-fold positions, add, partial/full withdraw, swaps of both "
-          "kinds/directions from 1 unit to draining, collects, incentive creation, time advances, transfers) with reward oracles on every solvency pass; "
-          "clmath: per-step growth arithmetic on stratified (charge, liquidity, scaling factor); distinct = distinct op lines",
-  "trusted_base": ["osmoutils/accum as proved in C15", "cosmos-sdk bank"],
-  "assumptions": ["PARTIAL: proved = per-step credit arithmetic (growth x active liquidity <= charge, linearity) + accumulator theorems of C15; NOT proved = tick-crossing "
-                  "growth-outside bookkeeping, uptime accumulators, forfeit rule: decided by the engine oracles (twins equal, k-fold within rounding, never-in-range earns "
-                  "nothing, claimed+claimable <= paid in, claim twice yields nothing, claimable <= balances) on the sampled histories only"],
-  "explanation": "model tied by differential run: per-step growth function (exported through a verif-tagged overlay file) and the whole pool state machine",
+  "rule": "cl: histories on one concentrated pool (scaling factor one or 10^27, chosen per history) through the real keeper: create incl. twin and k-fold positions, add, "
+          "partial/full withdraw, swaps of both kinds/directions from 1 unit to draining, spread-reward collects by owner and non-owner, transfers, directed sequences "
+          "accrue -> partial withdraw / add / transfer -> (swap) -> claim on the same position, incentive records (authorised uptimes 1ns..1d, own denom each, start now or "
+          "later), block-time advances incl. periods with zero active liquidity, incentive collects. After EVERY op the spread-reward state (accumulator, total shares, "
+          "growth-outside of every tick, every position record incl. unclaimed, GetClaimableSpreadRewards of every position, fee balances) is compared with the Lean model "
+          "(`clp fdump`); oracles after every op: spread no-loss (balance - claimable <= dust), incentives (paid+claimable <= in-range time x rate x share, remaining, unmet uptime), "
+          "and the fairness/solvency oracles on every solvency pass; clmath: per-step growth arithmetic; distinct = distinct op lines",
+  "trusted_base": ["osmoutils/accum as proved in C15", "cosmos-sdk bank", "C07 pool invariant (active liquidity, ticks = position boundaries, price-tick agreement)"],
+  "assumptions": ["spread rewards: theorems over the state machine Model/CLFees.lean (= Model/CLPool.lean + accumulator, tick growth-outside, position records), tied to the keeper "
+                  "by full-state comparison after every op; proved for all histories: growth-inside = growth while in range (crossings both directions, in-bucket moves, tick "
+                  "init/removal), claimable = C15 formula over growth inside, twins, never-in-range, k-fold (raw bound), collect/withdraw/add/transfer neither lose nor duplicate "
+                  "(second claim = 0 proved for scaled pools; scaling factor one: formula only)",
+                  "PARTIAL: the history-level sum bound (claimed + claimable over all positions <= paid in, dust bound) is not a theorem (per-step ingredient and C07 invariant are): "
+                  "decided by the oracles rewards:claimable>paid-in, solvency:spread-balance<claimable, rewards:spread-lost:*",
+                  "PARTIAL: uptime incentive accumulators and the forfeit rule are not modelled in Lean: decided by the oracles incentives:* on the real keeper"],
+  "explanation": "history model FOp/applyF/runF over CLFees.Fees; the pool component of every message is exactly the CLPool operation (C07's Inv carries over); invariant FullInv "
+                 "by induction; growth inside expressed as insideI(cur, G, out(lower), out(upper)) with three laws (grow, flip on crossing, keep in bucket) and the fold over the swap "
+                 "step trace (TraceOK derived from C07's loop invariant); records and claims by unfolding the accumulator calls",
  },
  "C20": {
   "modules": ["OsmoVerif.Props.C20"],
